@@ -100,6 +100,7 @@ OPD = {name: (tpl, kind) for name, tpl, kind in OPS}
 OPNAMES = [name for name, _, _ in OPS]
 
 PROGRAM = "c(O,A,B) :- compare(O,A,B).\n"
+TIMEOUT_CAP = "some executions hit the per-call watchdog and were not judged (counters.timeouts)"
 
 ORDER_OF_TEXT = {"<": -1, "=": 0, ">": 1, "'<'": -1, "'='": 0, "'>'": 1}
 
@@ -156,7 +157,7 @@ def run_call(op, a, b):
     "<" "=" ">" (order returned), "true", "false", "error:<Class>", "crash:<Class>@<site>",
     "timeout", "answers:<n>", "bad-order:<text>" """
     st = _state()
-    res = st["h"].query(goal_text(op, a, b))
+    res = st["h"].query(goal_text(op, a, b), timeout=20)
     kind = OPD[op][1]
     if res[0] == "ok":
         answers = res[1]
@@ -271,7 +272,7 @@ def run_sort(items, second=None):
         term = h.parse(goal)
     except Exception as exc:  # noqa
         return "parse-error:%s" % type(exc).__name__, None
-    res = h.query_raw(term)
+    res = h.query_raw(term, timeout=20)
     if res[0] == "ok":
         answers = res[1]
         if second is not None:
@@ -334,6 +335,14 @@ def judge_sort(items, mode):
         expected = "true" if mode == "check" else "false"
         observed = outcome
         sym = symptom_of(expected, outcome)
+        if sym == "wrong-value" and mode == "refuse":
+            # attribution (DESIGN 2.8): sort/2 ends with a unification of its result with the second
+            # argument.  If the implementation's own =/2 unifies the two different lists, the
+            # acceptance is the unifier's defect (C14: 10 = '10' succeeds), not sort/2's.
+            r = st["h"].query("%s = %s" % (list_text(second), list_text(exp)))
+            if r[0] == "ok" and r[1]:
+                sym = None
+                observed = "true (excluded: =/2 unifies the two different lists, C14)"
     res = (sym, expected, observed)
     st["memo"][key] = res
     return res
@@ -556,6 +565,7 @@ class C15(Prop):
                 acc.transitions += 1
                 if obs in ("timeout", "recursion"):
                     acc.counters["timeouts"] += 1
+                    acc.cap(TIMEOUT_CAP)
                     continue
                 if c is None:
                     acc.counters["unjudged_calls"] += 1  # only "must answer" is checked
@@ -676,8 +686,13 @@ class C15(Prop):
                     acc.transitions += 1
                     if o in ("timeout", "recursion"):
                         acc.counters["timeouts"] += 1
+                        acc.cap(TIMEOUT_CAP)
                         continue
                     acc.traces += 1
+                    if o.startswith("true (excluded"):
+                        acc.counters["refuse_excluded_unifier_defect_C14"] += 1
+                        acc.traces -= 1
+                        continue
                     if mode == "out":
                         acc.outcomes["sort len %d -> %s" % (len(items), len(exp) if sym is None else sym)] += 1
                     else:
@@ -726,7 +741,7 @@ class C15(Prop):
     ]
 
     def _run_goal(self, goal):
-        res = _state()["h"].query(goal)
+        res = _state()["h"].query(goal, timeout=20)
         if res[0] == "ok":
             if goal.startswith("compare(O"):
                 if len(res[1]) != 1:
@@ -755,6 +770,7 @@ class C15(Prop):
                 acc.nontrivial += 1
                 if obs in ("timeout", "recursion"):
                     acc.counters["timeouts"] += 1
+                    acc.cap(TIMEOUT_CAP)
                     continue
                 acc.traces += 1
                 acc.outcomes["var: %s" % obs] += 1
